@@ -385,6 +385,14 @@ def c10_family(tag, quick):
                                    {"a": "closeDown", "g": "C3", "obj": "D1", "ctxMs": 2000}, {"a": "closeDown", "g": "C4", "obj": "D1", "ctxMs": 2000},
                                    {"a": "join", "obj": "C1"}, {"a": "join", "obj": "C2"}, {"a": "join", "obj": "C3"}, {"a": "join", "obj": "C4"},
                                    {"a": "closeConn", "g": "C", "ctxMs": 2000, "wait": True}] + tail})
+    # the application's Disconnected handler closes the connection itself: after the user's Close, and after the broker refused every redial
+    conn = {"onDisconnected": "closeConn"}
+    scs.append({"id": tag + "/closeFromHandler/userClose", "kind": "iscp", "conn": conn,
+                "steps": base(conn) + [{"a": "closeConn", "g": "C", "ctxMs": 2000, "wait": True}, {"a": "sleep", "ms": 100}] + after_conn_calls() + tail})
+    scs.append({"id": tag + "/closeFromHandler/idle", "kind": "iscp", "conn": conn,
+                "steps": [{"a": "connect", "must": True}, {"a": "closeConn", "g": "C", "ctxMs": 2000, "wait": True}, {"a": "sleep", "ms": 100},
+                          {"a": "sendMeta", "g": "A1", "tag": 35, "ctxMs": 3000, "wait": True},
+                          {"a": "closeConn", "g": "A1", "ctxMs": 3000, "wait": True}] + tail})
     # two overlapping Close calls on one stream: the first one's close request is still unanswered when the second call is made
     scs.append({"id": tag + "/overlappingStreamClose", "kind": "iscp", "conn": {},
                 "steps": [{"a": "holdHandler", "mode": "DownClosed", "n": 1, "gate": "hd"}, {"a": "holdHandler", "mode": "UpClosed", "n": 1, "gate": "hd"}]
